@@ -9,14 +9,6 @@ import Proofs.C04Sound
 namespace FV.Earley
 open FV.Scan (scanT scanAll accepts accepts_iff)
 
-/-- the input as the scanner-level model sees it -/
-def Input.toInp (inp : Input) : Scan.Inp := ⟨inp.cells, inp.rlen⟩
-
-theorem startsWith_eq : ∀ (xs s : List Nat), Scan.startsWith xs s = startsWith xs s
-  | _, [] => by simp [Scan.startsWith, startsWith]
-  | [], _ :: _ => by simp [Scan.startsWith, startsWith]
-  | a :: as, b :: bs => by simp [Scan.startsWith, startsWith, startsWith_eq as bs]
-
 theorem startsWith_length : ∀ (xs s : List Nat), startsWith xs s = true → s.length ≤ xs.length
   | _, [], _ => by simp
   | [], _ :: _, h => by simp [startsWith] at h
